@@ -541,14 +541,16 @@ def glomit (p : Prims) (rec : Rec σ) (spec : Spec) (target : V) (sc : σ) : M (
     let f ← argVal rec target func sc
     let a ← argVal rec target args sc
     let kw ← argVal rec target kwargs sc
-    match f, a, kw with
-    | .fn n k, .tuple as, .dict _ kws => do
-      let v ← callFn p n k as (strKeyed kws)
-      pure (v, sc)
-    | .fn n k, .list as, .dict _ kws => do
-      let v ← callFn p n k as (strKeyed kws)
-      pure (v, sc)
-    | _, _, _ => M.fail "TypeError"
+    -- `func(*args, **kwargs)`: Python unpacks any iterable (a tuple, a list, the keys of a dict, the
+    -- characters of a str; the order of a set is CPython's business)
+    match f, kw with
+    | .fn n k, .dict _ kws =>
+      match starItems [a] with
+      | some as => do
+        let v ← callFn p n k as (strKeyed kws)
+        pure (v, sc)
+      | Option.none => M.fail (match a with | .set .. => "Unsupported" | _ => "TypeError")
+    | _, _ => M.fail "TypeError"
   | .invoke func funcIsSpec blocks => do
     let f ← (if funcIsSpec then do
         let r ← rec func target sc
